@@ -128,6 +128,7 @@ struct Gen
   int depth{0};
   bool printable_only{false}; // unordered containers: elements must not contain the separators the oracle splits on
   bool no_null{false};
+  long force_count{-1}; // >= 0: element count of the top-level sequence container(s) of the value (boundary cases)
 };
 
 /** random byte string: classes = empty, short ascii, with non-printable, with embedded NUL, long, boundary lengths */
@@ -561,6 +562,7 @@ inline size_t gen_count(Gen& g)
 {
   static size_t const ns[] = {0, 0, 1, 1, 2, 3, 4, 5, 8, 13, 17};
   size_t n = ns[g.rng.below(sizeof(ns) / sizeof(ns[0]))];
+  if (g.force_count >= 0 && g.depth == 0) return static_cast<size_t>(g.force_count);
   return g.depth > 1 ? n % 4 : n;
 }
 
